@@ -474,6 +474,95 @@ func c09Deep(c *vk.Ctx, i int) {
 	}
 }
 
+// c09Parallel: the same score-ordered requests issued by several goroutines at once on one reader must
+// each return the slice of the complete ranking (scores taken from one sequential all-matches run; ties
+// by index order) - a ranking may not depend on what other searches are doing at that moment.
+func c09Parallel(c *vk.Ctx, i int) {
+	r := rand.New(rand.NewSource(vk.SubSeed(c.Seed, fmt.Sprintf("c09-par-%d", i))))
+	w, err := bluge.OpenWriter(bx.NoMerge(bluge.InMemoryOnlyConfig()))
+	if err != nil {
+		return
+	}
+	defer w.Close()
+	total := 300 + r.Intn(400)
+	b := bluge.NewBatch()
+	for x := 0; x < total; x++ {
+		words := append(rep("w", 1+r.Intn(8)), rep("x", r.Intn(12))...)
+		doc := bluge.NewDocument(fmt.Sprintf("p%04d", x)).AddField(bluge.NewTextField("t", strings.Join(words, " ")))
+		b.Update(doc.ID(), doc)
+		if x%97 == 96 {
+			_ = w.Batch(b)
+			b = bluge.NewBatch()
+		}
+	}
+	_ = w.Batch(b)
+	rd, err := w.Reader()
+	if err != nil {
+		return
+	}
+	defer rd.Close()
+	q := func() bluge.Query { return bluge.NewMatchQuery("w").SetField("t") }
+	full, _, err := bx.SafeCollect(rd, bluge.NewAllMatches(q()), false)
+	if err != nil || len(full) != total {
+		c.Violate("harness-allmatches", fmt.Sprintf("%v, %d of %d", err, len(full), total), nil)
+		return
+	}
+	type sh struct {
+		id    string
+		score float64
+		hit   int
+	}
+	var ref []sh
+	for k, h := range full {
+		ref = append(ref, sh{h.ID, h.Score, k})
+	}
+	sort.SliceStable(ref, func(a, b int) bool {
+		if ref[a].score != ref[b].score {
+			return ref[a].score > ref[b].score
+		}
+		return ref[a].hit < ref[b].hit
+	})
+	var mu sync.Mutex
+	bad := 0
+	var wg sync.WaitGroup
+	for g := 0; g < 8; g++ {
+		wg.Add(1)
+		go func(g int) {
+			defer wg.Done()
+			gr := rand.New(rand.NewSource(int64(i*100 + g)))
+			for k := 0; k < 25; k++ {
+				n, from := []int{5, 10, 11, 50, 200}[gr.Intn(5)], []int{0, 0, 3, 10, 100}[gr.Intn(5)]
+				hits, err := bx.SearchIDs(rd, bluge.NewTopNSearch(n, q()).SetFrom(from))
+				if err != nil {
+					continue
+				}
+				lo, hi := from, from+n
+				if hi > total {
+					hi = total
+				}
+				var want []string
+				for _, s := range ref[lo:hi] {
+					want = append(want, s.id)
+				}
+				got := idsOf(hits)
+				mu.Lock()
+				c.Eval(1)
+				c.Event("parallel_score_ordered_searches", 1)
+				if fmt.Sprint(got) != fmt.Sprint(want) && bad < 3 {
+					bad++
+					c.Violate("topn-wrong-slice:concurrent-searches", fmt.Sprintf("8 goroutines searching one reader at once, score order, n=%d from=%d over %d matches: want %v... got %v...", n, from, total, clipIDs(want), clipIDs(got)),
+						map[string]interface{}{"n": n, "from": from, "matches": total, "want": want, "got": got})
+				}
+				mu.Unlock()
+			}
+		}(g)
+	}
+	wg.Wait()
+	if bad == 0 {
+		c.DistinctHash(vk.Hash64(fmt.Sprintf("parallel|%d", total)))
+	}
+}
+
 // c09EmptyKey: a present but EMPTY text key is a key ("" sorts before every other text), not a missing
 // one: documents with k = "", with other keys and without the field, all four direction / missing
 // placements, windows over the whole ranking.
@@ -608,6 +697,9 @@ func runC09(c *vk.Ctx) {
 	}
 	for i := 0; i < c.Pick(20, 400); i++ {
 		c09EmptyKey(c, i)
+	}
+	for i := 0; i < c.Pick(6, 120); i++ {
+		c09Parallel(c, i)
 	}
 	c.Require("deep_requests_beyond_the_prealloc_cap_with_more_matches", 10)
 	c.Require("topn_store_slice", 50)
